@@ -15,9 +15,6 @@ From LZ4V Require Import Model.Sparse Model.CliOpts Model.CompressPipe Proofs.Sp
 Import ListNotations.
 Local Open Scope Z_scope.
 
-Module FC := LZ4V.Model.FrameC.
-Module FB := LZ4V.Proofs.FrameCBytes.
-Module FCI := LZ4V.Proofs.FileCompInst.
 
 (* ================================================================== a chain of blocks is stepped over by the specification *)
 Section ChainExtends.
@@ -83,8 +80,8 @@ End ChainExtends.
 
 (* ================================================================== the instance *)
 (* the LZ4F_preferences_t that lz4io.c fills (enum / flag fields normalised to their C values) *)
-Definition cvf (p : lz4f_prefs) : FC.prefs :=
-  FC.mkPrefs (fp_blockSizeID p) (if linked p then 0 else 1) (if fp_contentChecksum p =? 0 then 0 else 1)
+Definition cvf (p : lz4f_prefs) : FrameC.prefs :=
+  FrameC.mkPrefs (fp_blockSizeID p) (if linked p then 0 else 1) (if fp_contentChecksum p =? 0 then 0 else 1)
              (fp_contentSize p) 0 (if fp_blockChecksum p =? 0 then 0 else 1) (fp_level p) (fp_autoFlush p)
              (fp_favorDecSpeed p).
 (* -D : a CDict made of the dictionary; no -D : NULL *)
@@ -95,13 +92,13 @@ Lemma dict_of_dk d : dict_of (dk_of d) = d.
 Proof. destruct d; reflexivity. Qed.
 
 Lemma cvf_ok p : 4 <= fp_blockSizeID p <= 7 -> 0 <= fp_contentSize p < U64_MAX1 ->
-  prefs_norm (cvf p) /\ eff_prefs (Some (cvf p)) = cvf p /\ FB.desc_of (cvf p) = CliProofs.desc_of p.
+  prefs_norm (cvf p) /\ eff_prefs (Some (cvf p)) = cvf p /\ FrameCBytes.desc_of (cvf p) = CliProofs.desc_of p.
 Proof.
   intros Hb Hc. unfold U64_MAX1 in Hc. split; [|split].
   - unfold prefs_norm, prefs_ok, cvf. cbn.
     repeat split; try lia; try (destruct (linked p); auto); try (destruct (_ =? 0); auto).
   - unfold eff_prefs, cvf. cbn. replace (fp_blockSizeID p =? 0) with false by (symmetry; apply Z.eqb_neq; lia). reflexivity.
-  - unfold FB.desc_of, CliProofs.desc_of, cvf. cbn.
+  - unfold FrameCBytes.desc_of, CliProofs.desc_of, cvf. cbn.
     destruct (linked p), (fp_blockChecksum p =? 0), (fp_contentChecksum p =? 0); reflexivity.
 Qed.
 
@@ -146,26 +143,26 @@ Section Instance.
 
   (* ---- the session after any list of LZ4F_compressUpdate calls ---- *)
   Lemma c4_fold dk p' maxb : prefs_norm p' -> 0 < maxb < 2147483648 ->
-    forall prev X c bl, InvC dk p' maxb X c bl -> FCI.afJ c -> c_mode c = FC_LZ4B_COMPRESSED ->
+    forall prev X c bl, InvC dk p' maxb X c bl -> FileCompInst.afJ c -> c_mode c = FC_LZ4B_COMPRESSED ->
     exists bl', InvC dk p' maxb (X ++ concat prev) (fold_left (fun c x => snd (compressUpdate blk c x)) prev c) bl' /\
-                FCI.afJ (fold_left (fun c x => snd (compressUpdate blk c x)) prev c) /\
+                FileCompInst.afJ (fold_left (fun c x => snd (compressUpdate blk c x)) prev c) /\
                 c_mode (fold_left (fun c x => snd (compressUpdate blk c x)) prev c) = FC_LZ4B_COMPRESSED.
   Proof.
     intros Hn Hmax. induction prev as [|x r IH]; intros X c bl HI HJ Hm.
     - exists bl. cbn. rewrite app_nil_r. auto.
     - cbn [fold_left concat].
-      destruct (FCI.update_out blk Hblk dk p' maxb X c bl x FC_LZ4B_COMPRESSED Hn Hmax HI) as (o & c' & Hu).
+      destruct (FileCompInst.update_out blk Hblk dk p' maxb X c bl x FC_LZ4B_COMPRESSED Hn Hmax HI) as (o & c' & Hu).
       fold (compressUpdate blk c x) in Hu. rewrite Hu. cbn [snd].
       destruct (update_inv blk strict_valid Hblk strict_valid_ext dk p' maxb X c bl x FC_LZ4B_COMPRESSED o c' Hn Hmax HI ltac:(intros _; reflexivity) Hu)
         as (bl' & _ & HI').
-      destruct (FCI.update_afJ blk c x o c' Hm HJ Hu) as [HJ' Hm'].
+      destruct (FileCompInst.update_afJ blk c x o c' Hm HJ Hu) as [HJ' Hm'].
       destruct (IH (X ++ x) c' (bl ++ bl') HI' HJ' Hm') as (bl2 & A & B & C).
       exists bl2. rewrite <- app_assoc in A. auto.
   Qed.
 
   Lemma c4_ctx_spec p d prev : 4 <= fp_blockSizeID p <= 7 -> 0 <= fp_contentSize p < U64_MAX1 ->
     exists maxb bl, bsid_size (fp_blockSizeID p) = Some maxb /\
-      InvC (dk_of d) (cvf p) maxb (concat prev) (c4_ctx p d prev) bl /\ FCI.afJ (c4_ctx p d prev) /\
+      InvC (dk_of d) (cvf p) maxb (concat prev) (c4_ctx p d prev) bl /\ FileCompInst.afJ (c4_ctx p d prev) /\
       c_mode (c4_ctx p d prev) = FC_LZ4B_COMPRESSED.
   Proof.
     intros Hb Hc. destruct (c4_begin_spec p d Hb Hc) as (c1 & maxb & HB & Hmaxb & HI & Ht & Hm).
@@ -210,15 +207,15 @@ Section Instance.
     destruct (cvf_ok p Hb Hc) as (Hn & _).
     pose proof (bsid_size_range _ _ Hmaxb) as Hmax.
     set (ck := c4_ctx p d prev) in *.
-    destruct (FCI.update_out blk Hblk (dk_of d) (cvf p) maxb (concat prev) ck bl c FC_LZ4B_COMPRESSED Hn Hmax HI) as (o & c' & Hu).
+    destruct (FileCompInst.update_out blk Hblk (dk_of d) (cvf p) maxb (concat prev) ck bl c FC_LZ4B_COMPRESSED Hn Hmax HI) as (o & c' & Hu).
     fold (compressUpdate blk ck c) in Hu.
     destruct (update_inv blk strict_valid Hblk strict_valid_ext (dk_of d) (cvf p) maxb (concat prev) ck bl c FC_LZ4B_COMPRESSED o c' Hn Hmax HI ltac:(intros _; reflexivity) Hu)
       as (bl' & Ho & HI').
-    destruct (FCI.update_afJ blk ck c o c' Hm HJ Hu) as [HJ' _].
+    destruct (FileCompInst.update_afJ blk ck c o c' Hm HJ Hu) as [HJ' _].
     unfold c4_update. fold ck. rewrite Hu. cbn [fst outb]. subst o.
     (* nothing stays in tmpIn: the new blocks hold exactly the input *)
-    assert (Hpk : FC.c_prefs ck = cvf p) by (destruct HI as [[Hs ? ? ? ? ? ?] ? ? ? ? ?]; exact Hs).
-    assert (Hpk' : FC.c_prefs c' = cvf p) by (destruct HI' as [[Hs ? ? ? ? ? ?] ? ? ? ? ?]; exact Hs).
+    assert (Hpk : FrameC.c_prefs ck = cvf p) by (destruct HI as [[Hs ? ? ? ? ? ?] ? ? ? ? ?]; exact Hs).
+    assert (Hpk' : FrameC.c_prefs c' = cvf p) by (destruct HI' as [[Hs ? ? ? ? ? ?] ? ? ? ? ?]; exact Hs).
     assert (Ht : c_tmp ck = []) by (apply HJ; rewrite Hpk; exact Haf).
     assert (Ht' : c_tmp c' = []) by (apply HJ'; rewrite Hpk'; exact Haf).
     assert (HX : concat prev = contents bl) by (destruct HI as [_ HX _ _ _ _]; rewrite Ht, app_nil_r in HX; exact HX).
@@ -248,10 +245,10 @@ Section Instance.
     destruct (c4_ctx_spec p [] [content] Hb Hc) as (maxb & bl & Hmaxb & HI & HJ & Hm).
     destruct (cvf_ok p Hb Hc) as (Hn & _).
     set (ck := c4_ctx p [] [content]) in *. cbn [concat] in HI. rewrite app_nil_r in HI.
-    assert (Hpk : FC.c_prefs ck = cvf p) by (destruct HI as [[Hs ? ? ? ? ? ?] ? ? ? ? ?]; exact Hs).
+    assert (Hpk : FrameC.c_prefs ck = cvf p) by (destruct HI as [[Hs ? ? ? ? ? ?] ? ? ? ? ?]; exact Hs).
     assert (Ht : c_tmp ck = []) by (apply HJ; rewrite Hpk; exact Haf).
     unfold c4_end. fold ck. unfold compressEnd, flush. rewrite Ht. cbn [len length Z.of_nat Z.eqb].
-    cbn [FC.c_prefs set_stage c_totalIn]. rewrite Hpk.
+    cbn [FrameC.c_prefs set_stage c_totalIn]. rewrite Hpk.
     destruct HI as [_ HX _ Hxxh Htot _].
     assert (Hsz : (negb (p_contentSize (cvf p) =? 0) && negb (p_contentSize (cvf p) =? c_totalIn ck)) = false).
     { cbn [cvf p_contentSize]. destruct (Z.eqb_spec (fp_contentSize p) 0) as [E0|E0]; [reflexivity|].
@@ -277,7 +274,7 @@ Section Instance.
     set (p0 := match po with Some p => p | None => prefs_null end).
     assert (Hp0 : prefs_ok p0) by (unfold p0; destruct po; [exact Hpo|exact prefs_null_ok]).
     destruct Hp0 as (Hb & _).
-    assert (HE : isError (getBlockSize (p_bsid (if p_bsid p0 =? 0 then FC.set_bsid p0 LZ4F_BLOCKSIZEID_DEFAULT else p0))) = false).
+    assert (HE : isError (getBlockSize (p_bsid (if p_bsid p0 =? 0 then FrameC.set_bsid p0 LZ4F_BLOCKSIZEID_DEFAULT else p0))) = false).
     { destruct Hb as [Hb|Hb].
       - rewrite Hb. reflexivity.
       - replace (p_bsid p0 =? 0) with false by (symmetry; apply Z.eqb_neq; lia).
@@ -311,12 +308,12 @@ Section Instance.
     assert (HB' : compressBegin c0 (Some p3) dk = (Out hdr, c1)) by (unfold dk; destruct cd; exact HB).
     destruct (begin_inv strict_valid c0 (Some p3) dk hdr c1 Hp3 HB') as (p & maxb & Hp & Hnorm & Hmaxb & _ & HI).
     pose proof (bsid_size_range _ _ Hmaxb) as Hmax.
-    destruct (FCI.update_out blk Hblk dk p maxb [] c1 [] src FC_LZ4B_COMPRESSED Hnorm Hmax HI) as (body & c2 & HU).
+    destruct (FileCompInst.update_out blk Hblk dk p maxb [] c1 [] src FC_LZ4B_COMPRESSED Hnorm Hmax HI) as (body & c2 & HU).
     fold (compressUpdate blk c1 src) in HU. rewrite HU.
     destruct (update_inv blk strict_valid Hblk strict_valid_ext dk p maxb [] c1 [] src FC_LZ4B_COMPRESSED body c2 Hnorm Hmax HI ltac:(intros _; reflexivity) HU)
       as (bl' & _ & HI2). cbn [app] in HI2.
     assert (Hcs : p_contentSize p = 0 \/ p_contentSize p = len src) by (rewrite Hp; apply frame_prefs_csize).
-    destruct (FCI.end_out blk Hblk dk p maxb src c2 bl' Hnorm Hmax HI2 Hn Hcs) as (tail & c3 & HE).
+    destruct (FileCompInst.end_out blk Hblk dk p maxb src c2 bl' Hnorm Hmax HI2 Hn Hcs) as (tail & c3 & HE).
     rewrite HE. eexists _, _. reflexivity.
   Qed.
 
@@ -566,3 +563,8 @@ Proof.
   vm_compute in Hnb. assert (nb = 0%nat) by lia. subst nb.
   specialize (E 1%nat [0; 0; 0; 0]). vm_compute in E. discriminate E.
 Qed.
+
+(* what the model says `lz4 [options]` writes when no block compresses (every block stored raw): compared
+   byte for byte with the real binary's output on inputs where that is the case (harness c04.py) *)
+Definition cli_bytes_raw (mt : bool) (s : cli_state) (fileSize : Z) (dict content : list Z) : list Z :=
+  cli_compress c4_header (c4_frame blk_raw) (c4_update blk_raw) (c4_end blk_raw) (fun _ c => c) mt s fileSize dict content.
